@@ -172,9 +172,8 @@ namespace avel {
 
         static vec4x64i compute_mp(vec4x64i l, vec4x64i d) {
             vec4x64i n = vec4x64i{1} << (l - vec4x64i{1});
-            n = clear(d == vec4x64i{1}, n);
-
             d = avel::abs(d);
+            n = clear(d == vec4x64i{1}, n);
 
             auto quotient0 = div_64uhi_by_64u(extract<0>(n), extract<0>(d));
             auto quotient1 = div_64uhi_by_64u(extract<1>(n), extract<1>(d));
